@@ -231,6 +231,22 @@ func (h *dnsCryptHandler) ServeDNS(rw dnscrypt.ResponseWriter, r *dns.Msg) (err 
 	network := NetworkFromAddr(rw.LocalAddr())
 	msg := nrw.Msg()
 	normalize(network, ProtoDNSCrypt, r, msg, dns.MaxMsgSize)
+	if network == NetworkTCP {
+		// The DNSCrypt library truncates the message once more to leave room
+		// for the encryption header, and over TCP it keeps the answers that
+		// still fit.  Truncate to that size here, so that the answer section
+		// of a truncated message is empty, as it is for the other protocols.
+		truncate(msg, dnsCryptMaxTCPMsgSize)
+		msg.Compress = true
+	}
 
 	return rw.WriteMsg(msg)
 }
+
+// dnsCryptMaxTCPMsgSize is the maximum size of a DNS message that is sent over
+// DNSCrypt TCP.  The DNSCrypt library truncates responses to [dns.MaxMsgSize]
+// minus the 64 bytes that it reserves for the encryption, but a message of
+// exactly that size doesn't fit into a TCP frame any more once it has been
+// padded to the next multiple of 64 and the 48 bytes of the header and the
+// authentication tag have been added, so one more byte is taken off.
+const dnsCryptMaxTCPMsgSize = dns.MaxMsgSize - 64 - 1
